@@ -390,3 +390,54 @@ def fixtures_with_structure_preserving_edits(H, path):
             except Exception:  # noqa
                 ok = False
             H.check("truncated_cvals_leave_defaults", ok, witness={"file": os.path.basename(path), "cvals_kept": k})
+
+
+@contract(
+    "string_chunks_decode", ["C04", "C01"], kind="bounded",
+    targets=["rv.readers.module:ModuleReader.process_SNAM", "rv.readers.module:ModuleReader.process_SMIN",
+             "rv.readers.module:ModuleReader.process_STYP", "rv.readers.sunvox:SunVoxReader.process_NAME",
+             "rv.readers.pattern:PatternReader.process_PNME"],
+    bound="payloads of length 0..34 built from ASCII and multi-byte UTF-8 text with the first NUL at every position or absent (unterminated, e.g. a name that fills the 32-byte SNAM field); native evaluation against the spec's cstring decoder",
+)
+def string_chunks_decode(H, _):
+    """Every string chunk decodes to the text before its first NUL byte - or to the whole payload
+    when there is no NUL at all."""
+    import io
+
+    from rv.modules.amplifier import Amplifier
+    from rv.readers.module import ModuleReader
+    from rv.readers.pattern import PatternReader
+    from rv.readers.sunvox import SunVoxReader
+
+    texts = ["", "A", "Amplifier for the left channel 2", "αβγδ ♫ mixed ☃ text", "x" * 34]
+    payloads = []
+    for t in texts:
+        raw = t.encode("utf8")
+        payloads.append(raw)  # unterminated
+        payloads.append(raw + b"\0")
+        payloads.append(raw + b"\0\0\0")
+        payloads.append(raw + b"\0junk after terminator")
+        payloads.append(raw[:32].decode("utf8", "ignore").encode("utf8").ljust(32, b"\0"))
+    for payload in payloads:
+        want = F.dec_cstring(payload)
+        w = {"payload": repr(payload)}
+        r = ModuleReader(io.BytesIO(b""), index=1)
+        r._object = Amplifier()
+        r.process_SNAM(payload)
+        H.check("SNAM_decodes_to_text_before_first_NUL", r._object.name == want, witness=dict(w, got=r._object.name))
+        r.process_SMIN(payload)
+        H.check("SMIN_decodes_to_text_before_first_NUL", r._object.midi_out_name == want, witness=dict(w, got=r._object.midi_out_name))
+        s = SunVoxReader(io.BytesIO(b""))
+        s._object = Project()
+        s.process_NAME(payload)
+        H.check("NAME_decodes_to_text_before_first_NUL", s._object.name == want, witness=dict(w, got=s._object.name))
+        pr = PatternReader(io.BytesIO(b""))
+        pr._object = Pattern()
+        pr.process_PNME(payload)
+        H.check("PNME_decodes_to_text_before_first_NUL", pr._object.name == want, witness=dict(w, got=pr._object.name))
+    for term in (b"\0", b"", b"\0\0"):
+        r = ModuleReader(io.BytesIO(b""), index=1)
+        r._object = Amplifier()
+        r._object.flags = 0
+        r.process_STYP(b"Amplifier" + term)
+        H.check("STYP_selects_class_with_or_without_terminator", type(r._object).__name__ == "Amplifier", witness=repr(term))
